@@ -754,9 +754,12 @@ VH_CMD(snapshot)
             m.kind = "genuine";
         } else if ((k -= P.n_ident) < P.n_base) {
             m.cls = "base";
-            const char* scns[8] = {"tip_at_base", "tip_above_base", "invalid_base_in_chain", "invalid_ancestor_in_chain", "invalid_header_ahead", "better_fork_headers",
-                                   "consistent_snapshot_of_uncommitted_block", "header_unknown"};
-            scn = scns[k % 8];
+            // sibling_*: a block at the committed height with the committed block's transactions (hence the identical UTXO set
+            // and hash) but another header; the genuine dump with only the base hash rewritten to the sibling's hash
+            const char* scns[12] = {"tip_at_base", "tip_above_base", "invalid_base_in_chain", "invalid_ancestor_in_chain", "invalid_header_ahead", "better_fork_headers",
+                                    "consistent_snapshot_of_uncommitted_block", "header_unknown",
+                                    "sibling_on_best_header_chain", "sibling_with_block_data", "sibling_chain_less_work", "sibling_chain_much_more_work"};
+            scn = scns[k % 12];
             m.kind = scn;
             if (scn == "consistent_snapshot_of_uncommitted_block") src = &ch.snap109;
         } else if ((k -= P.n_base) < P.n_bg) {
@@ -773,6 +776,18 @@ VH_CMD(snapshot)
         if (scn == "invalid_base_in_chain" || scn == "invalid_ancestor_in_chain") H = 110 + rng.below(3);
         if (scn == "header_unknown") { Hh = 100 + rng.below(10); H = std::min(H, Hh); }
         if (scn == "consistent_snapshot_of_uncommitted_block") H = std::min(H, 108);
+        const bool sibling = scn.rfind("sibling_", 0) == 0;
+        CBlock sib;
+        if (sibling) {
+            H = std::min(H, 108);
+            Hh = scn == "sibling_chain_less_work" ? 111 + rng.below(3) : 110;
+            sib = *ch.blocks[110];
+            sib.nTime += 1 + rng.below(5);
+            sib.nNonce = 0;
+            while (!CheckProofOfWork(sib.GetHash(), sib.nBits, cp)) ++sib.nNonce;
+            const uint256 sh = sib.GetHash();
+            m.ed.push_back({Layout::BASE, 32, Bytes(sh.begin(), sh.end())});
+        }
         if (m.cls == "bg") H = rng.below(109);
         std::unique_ptr<Node> n = MakeNode(ch, H, Hh);
         ChainstateManager& cm = n->cm();
@@ -794,6 +809,23 @@ VH_CMD(snapshot)
             BlockValidationState st;
             if (!cm.ProcessNewBlockHeaders(fh, true, st)) throw std::runtime_error("fork headers rejected: " + st.ToString());
             scn_note = "fork from " + std::to_string(fork_at) + " len " + std::to_string(len);
+        }
+        if (sibling) {
+            BlockValidationState st;
+            const CBlockHeader sh = static_cast<const CBlockHeader&>(sib);
+            if (!cm.ProcessNewBlockHeaders(std::span<const CBlockHeader>{&sh, 1}, true, st)) throw std::runtime_error("sibling header rejected: " + st.ToString());
+            int on_top = 0;
+            if (scn == "sibling_on_best_header_chain" || scn == "sibling_with_block_data") on_top = 1;
+            if (scn == "sibling_chain_much_more_work") on_top = 2 + rng.below(4);
+            if (on_top) {
+                auto fh = snapchain::ForkHeaders(sh, on_top, c, cp);
+                if (!cm.ProcessNewBlockHeaders(fh, true, st)) throw std::runtime_error("headers on the sibling rejected: " + st.ToString());
+            }
+            if (scn == "sibling_with_block_data") {
+                bool nb = false;
+                if (!cm.ProcessNewBlock(std::make_shared<const CBlock>(sib), true, true, &nb)) throw std::runtime_error("sibling block rejected");
+            }
+            scn_note = "sibling " + sib.GetHash().ToString() + " +" + std::to_string(on_top) + " headers";
         }
         Settle(*n);
         const Bytes file = Apply(*src, m.ed);
